@@ -12,14 +12,58 @@
      3. the position-free specification (`plan`, `pen_after`, `segs_of`) used by the theorems;
      4. a concrete syntax `ccmd` (every spacing / case / sign / leading-zero / `=var;` / omitted-count variant
         the reader accepts) with its printer, for the printer-parser theorem.
-   Outside the model (status `Excluded`): the angles 90, 270 and every TA angle other than 0, 180, 360
-   (floating point; "angle turning" is excluded by the property), P (paint), VARPTR$-style references
-   (bytes 0..8 after `=` / `X`) and array elements as variables.
+   Angles: A n and TA 0/90/180/270/360 are followed exactly.  The quarter turns are NOT plain integer
+   rotations in the code: they scale by the pixel aspect ratio through doubles,
+       90:  x' = int(y*yfac), y' = -int(x//yfac)      270: x' = -int(y*yfac), y' = int(x//yfac)
+   with yfac = float(aspect[1])/float(aspect[0]); section 0 models these double operations exactly on
+   integers (correctly rounded division and product, Python's float floor division = exact floor).
+   Outside the model (status `Excluded`): every other TA angle (sin/cos), P while a WINDOW is active
+   (coordinates go through floats), array elements whose index is itself an array element.
    No proofs in this file. *)
 From Coq Require Import ZArith List Bool.
 From PCB Require Import lib.Result lib.PyInt lib.Harness gen.Gen_draw.
 Import ListNotations.
 Open Scope Z_scope.
+
+(* ------------------------------------------------------------------------------------------------ *)
+(** * 0. The double-precision operations of the quarter turns, on integers *)
+
+(* a positive double as mant * 2^ex *)
+Definition dy := (Z * Z)%type.
+
+(* round the non-negative integer a (sticky: a nonzero part was already cut off below it) to 53 significant
+   bits, ties to even: (mant, shift) with value mant * 2^shift *)
+Definition round53 (a : Z) (sticky : bool) : Z * Z :=
+  let bits := if a =? 0 then 0 else Z.log2 a + 1 in
+  if bits <=? 53 then (a, 0)
+  else
+    let sh := bits - 53 in
+    let hi := Z.shiftr a sh in
+    let lo := Z.land a (Z.ones sh) in
+    let half := 2 ^ (sh - 1) in
+    let up := (half <? lo) || ((lo =? half) && (sticky || Z.odd hi)) in
+    (if up then hi + 1 else hi, sh).
+
+(* float(p) / float(q) for positive integers below 2^53: the correctly rounded quotient *)
+Definition fdiv (p q : Z) : dy :=
+  let s := Z.max 0 (56 + Z.log2 q - Z.log2 p) in
+  let nn := p * 2 ^ s in
+  let '(mant, sh) := round53 (nn / q) (negb (nn mod q =? 0)) in
+  (mant, sh - s).
+
+(* int(v * d) for an integer v (|v| < 2^53): correctly rounded product, truncated toward zero *)
+Definition mul_trunc (v : Z) (d : dy) : Z :=
+  let '(mant, sh) := round53 (Z.abs v * fst d) false in
+  let e := sh + snd d in
+  let r := if 0 <=? e then mant * 2 ^ e else Z.shiftr mant (- e) in
+  if v <? 0 then - r else r.
+
+(* int(v // d): Python's float floor division is the exact floor of the real quotient (for these sizes) *)
+Definition floor_div (v : Z) (d : dy) : Z :=
+  if snd d <? 0 then (v * 2 ^ (- snd d)) / fst d else v / (fst d * 2 ^ snd d).
+
+(* yfac of _draw_step from aspect = (pixel_height * screen_aspect[0], pixel_width * screen_aspect[1]) *)
+Definition yfac (asp : Z * Z) : dy := fdiv (snd asp) (fst asp).
 
 (* ------------------------------------------------------------------------------------------------ *)
 (** * 1. Commands and their interpreter *)
@@ -44,11 +88,16 @@ Inductive cmd :=
 | SetAngle (n : Z)                   (* A n : angle 90*n *)
 | TurnAngle (n : Z)                  (* TA n *)
 | Sub (name : list Z) (body : list cmd)   (* X name; : the commands of the string variable *)
+| Paint (f b : Z)                    (* P fill,border : flood fill from the pen position *)
 | Fail (e : Z)                       (* malformed text: BASIC error e is raised here *)
-| Unsupported.                       (* P, VARPTR$ references, array elements: not modelled *)
+| Unsupported.                       (* nested array indices: not modelled *)
 
 (* a request to Graphics._draw_line(x0, y0, x1, y1, attr) *)
 Record seg := mkseg { s_from : pt; s_to : pt; s_attr : Z }.
+
+(* what DRAW asks of the rest of the graphics code, in order: lines, and flood fills
+   (Graphics._flood_fill from the seed point with a fill and a border attribute) *)
+Inductive req := RLine (s : seg) | RPaint (seed : pt) (fill border : Z).
 
 Inductive status := Done | Raised (e : Z) | Excluded.
 
@@ -60,22 +109,30 @@ Record dstate := mkD {
   d_scale : Z;         (* _draw_scale *)
   d_angle : Z;         (* _draw_angle *)
   d_attr : Z;          (* _last_attr *)
-  d_nattr : Z          (* _num_attr: number of attributes of the mode *)
+  d_nattr : Z;         (* _num_attr: number of attributes of the mode *)
+  d_aspect : Z * Z;    (* (pixel_height * screen_aspect[0], pixel_width * screen_aspect[1]) *)
+  d_outcomes : list Z  (* what the flood fills of the P commands will find, an input of the model:
+                          0 seed outside the viewport, 1 seed on the border colour, 2 filled *)
 }.
 
 Definition set_pen (st : dstate) (p : pt) : dstate :=
-  mkD p (d_last st) (d_window st) (d_scale st) (d_angle st) (d_attr st) (d_nattr st).
+  mkD p (d_last st) (d_window st) (d_scale st) (d_angle st) (d_attr st) (d_nattr st) (d_aspect st) (d_outcomes st).
 Definition set_scale (st : dstate) (n : Z) : dstate :=
-  mkD (d_pen st) (d_last st) (d_window st) n (d_angle st) (d_attr st) (d_nattr st).
+  mkD (d_pen st) (d_last st) (d_window st) n (d_angle st) (d_attr st) (d_nattr st) (d_aspect st) (d_outcomes st).
 Definition set_angle (st : dstate) (n : Z) : dstate :=
-  mkD (d_pen st) (d_last st) (d_window st) (d_scale st) n (d_attr st) (d_nattr st).
+  mkD (d_pen st) (d_last st) (d_window st) (d_scale st) n (d_attr st) (d_nattr st) (d_aspect st) (d_outcomes st).
 Definition set_attr (st : dstate) (n : Z) : dstate :=
-  mkD (d_pen st) (d_last st) (d_window st) (d_scale st) (d_angle st) n (d_nattr st).
+  mkD (d_pen st) (d_last st) (d_window st) (d_scale st) (d_angle st) n (d_nattr st) (d_aspect st) (d_outcomes st).
+
+Definition set_last (st : dstate) (p : pt) : dstate :=
+  mkD (d_pen st) p (d_window st) (d_scale st) (d_angle st) (d_attr st) (d_nattr st) (d_aspect st) (d_outcomes st).
+Definition set_outcomes (st : dstate) (os : list Z) : dstate :=
+  mkD (d_pen st) (d_last st) (d_window st) (d_scale st) (d_angle st) (d_attr st) (d_nattr st) (d_aspect st) os.
 
 (* end of _draw: `if self._window_bounds is None: self._last_point = self._draw_current` *)
 Definition finish (st : dstate) : dstate :=
   if d_window st then st
-  else mkD (d_pen st) (d_pen st) (d_window st) (d_scale st) (d_angle st) (d_attr st) (d_nattr st).
+  else mkD (d_pen st) (d_pen st) (d_window st) (d_scale st) (d_angle st) (d_attr st) (d_nattr st) (d_aspect st) (d_outcomes st).
 
 (* plot, goback: locals of one _draw activation *)
 Definition flags := (bool * bool)%type.
@@ -86,19 +143,22 @@ Definition in_range (r : Z * Z) (v : Z) : bool := (fst r <=? v) && (v <=? snd r)
 (* unscaled offset of a one-letter move (regenerated direction table) *)
 Definition dir_offset (d : dir) (n : Z) : pt := draw_dir_offset (dir_byte d) n.
 
-(* _draw_step up to the rotation: scaled and rotated offset; None = a rotation that uses floats *)
+(* _draw_step up to the rotation: scaled and rotated offset; None = an angle that goes through sin/cos *)
 Definition offset (st : dstate) (v : pt) : option pt :=
   let '(x1, y1) := draw_scaled (d_scale st) (fst v) (snd v) in
+  let yf := yfac (d_aspect st) in
   if draw_rotate_none (d_angle st) then Some (x1, y1)
+  else if d_angle st =? 90 then Some (mul_trunc y1 yf, - floor_div x1 yf)
   else if draw_rotate_half (d_angle st) then Some (draw_rotated_half x1 y1)
+  else if d_angle st =? 270 then Some (- mul_trunc y1 yf, floor_div x1 yf)
   else None.
 
 (* the common tail of _draw_step and of the absolute M: draw if plot, move unless goback *)
-Definition step (st : dstate) (fl : flags) (p1 : pt) : dstate * list seg :=
+Definition step (st : dstate) (fl : flags) (p1 : pt) : dstate * list req :=
   let p0 := d_pen st in
-  (set_pen st (if snd fl then p0 else p1), if fst fl then [mkseg p0 p1 (d_attr st)] else []).
+  (set_pen st (if snd fl then p0 else p1), if fst fl then [RLine (mkseg p0 p1 (d_attr st))] else []).
 
-Definition rel_move (st : dstate) (fl : flags) (v : pt) : flags * dstate * list seg * status :=
+Definition rel_move (st : dstate) (fl : flags) (v : pt) : flags * dstate * list req * status :=
   match offset st v with
   | Some o =>
       let p0 := d_pen st in
@@ -107,10 +167,35 @@ Definition rel_move (st : dstate) (fl : flags) (v : pt) : flags * dstate * list 
   | None => (fl, st, [], Excluded)
   end.
 
-Definition raise_ifc (fl : flags) (st : dstate) : flags * dstate * list seg * status :=
+Definition raise_ifc (fl : flags) (st : dstate) : flags * dstate * list req * status :=
   (fl, st, [], Raised draw_IFC).
 
-Fixpoint exec (c : cmd) (fl : flags) (st : dstate) {struct c} : flags * dstate * list seg * status :=
+(* _get_attr_index for the numbers of P (0..9999, so never the -1 that means "foreground") *)
+Definition attr_index (na i : Z) : Z := if i =? 0 then 0 else draw_attr_index na i.
+
+(* _get_window_physical without WINDOW: the coordinates must fit 16 bits *)
+Definition in_int16 (v : Z) : bool := (-32768 <=? v) && (v <=? 32767).
+
+(* P fill,border: a flood fill request at the pen; the prefixes B/N are not touched.  What the fill finds
+   decides what it leaves behind: nothing (seed outside the viewport), the last point (seed on the border
+   colour), or the last point and the fill colour as the new current colour *)
+Definition paint (st : dstate) (fl : flags) (f b : Z) : flags * dstate * list req * status :=
+  if d_window st then (fl, st, [], Excluded)
+  else if in_int16 (fst (d_pen st)) && in_int16 (snd (d_pen st)) then
+    let fa := attr_index (d_nattr st) f in
+    let ba := attr_index (d_nattr st) b in
+    match d_outcomes st with
+    | [] => (fl, st, [], Excluded)
+    | o :: os =>
+        let st1 := set_outcomes st os in
+        let st2 := if o =? 0 then st1
+                   else if o =? 1 then set_last st1 (d_pen st)
+                   else set_attr (set_last st1 (d_pen st)) fa in
+        (fl, st2, [RPaint (d_pen st) fa ba], Done)
+    end
+  else (fl, st, [], Raised draw_OVERFLOW).
+
+Fixpoint exec (c : cmd) (fl : flags) (st : dstate) {struct c} : flags * dstate * list req * status :=
   match c with
   | Move d n =>
       if in_range draw_range_step n then rel_move st fl (dir_offset d n) else raise_ifc fl st
@@ -134,7 +219,7 @@ Fixpoint exec (c : cmd) (fl : flags) (st : dstate) {struct c} : flags * dstate *
   | Sub _ body =>
       (* self._draw(sub): a new activation with its own plot/goback; the caller's flags are untouched *)
       let '(st', sg, stat) :=
-        (fix go (l : list cmd) (fl : flags) (st : dstate) {struct l} : dstate * list seg * status :=
+        (fix go (l : list cmd) (fl : flags) (st : dstate) {struct l} : dstate * list req * status :=
            match l with
            | [] => (st, [], Done)
            | c :: r =>
@@ -148,12 +233,14 @@ Fixpoint exec (c : cmd) (fl : flags) (st : dstate) {struct c} : flags * dstate *
       | Done => (fl, finish st', sg, Done)
       | _ => (fl, st', sg, stat)
       end
+  | Paint f b =>
+      if in_range draw_range_fill f && in_range draw_range_border b then paint st fl f b else raise_ifc fl st
   | Fail e => (fl, st, [], Raised e)
   | Unsupported => (fl, st, [], Excluded)
   end.
 
 (* the command loop of one activation *)
-Fixpoint run (l : list cmd) (fl : flags) (st : dstate) {struct l} : dstate * list seg * status :=
+Fixpoint run (l : list cmd) (fl : flags) (st : dstate) {struct l} : dstate * list req * status :=
   match l with
   | [] => (st, [], Done)
   | c :: r =>
@@ -173,24 +260,27 @@ Record gstate := mkG {
   g_angle : Z;
   g_attr : Z;
   g_text : bool;       (* _mode.is_text_mode *)
-  g_nattr : Z          (* _num_attr *)
+  g_nattr : Z;         (* _num_attr *)
+  g_aspect : Z * Z;
+  g_outcomes : list Z
 }.
 
 Definition current (g : gstate) : pt := match g_cur g with Some p => p | None => g_last g end.
 
 (* draw_ + the outermost _draw *)
-Definition draw (g : gstate) (cmds : list cmd) : gstate * list seg * status :=
+Definition draw (g : gstate) (cmds : list cmd) : gstate * list req * status :=
   if g_text g then (g, [], Raised draw_IFC)
   else
     let '(st, sg, stat) :=
-      run cmds fresh (mkD (current g) (g_last g) (g_window g) (g_scale g) (g_angle g) (g_attr g) (g_nattr g)) in
+      run cmds fresh (mkD (current g) (g_last g) (g_window g) (g_scale g) (g_angle g) (g_attr g) (g_nattr g)
+                          (g_aspect g) (g_outcomes g)) in
     let st' := match stat with Done => finish st | _ => st end in
     (mkG (Some (d_pen st')) (d_last st') (d_window st') (d_scale st') (d_angle st') (d_attr st') false
-         (d_nattr st'), sg, stat).
+         (d_nattr st') (d_aspect st') (d_outcomes st'), sg, stat).
 
-Definition dr_state (r : gstate * list seg * status) : gstate := fst (fst r).
-Definition dr_segs (r : gstate * list seg * status) : list seg := snd (fst r).
-Definition dr_status (r : gstate * list seg * status) : status := snd r.
+Definition dr_state (r : gstate * list req * status) : gstate := fst (fst r).
+Definition dr_reqs (r : gstate * list req * status) : list req := snd (fst r).
+Definition dr_status (r : gstate * list req * status) : status := snd r.
 
 (* point_ with one argument 0 or 1: `current = self._draw_current or self._last_point; current[fn]`
    (the value is then wrapped in a Single: exact for |v| <= 2^24) *)
@@ -199,7 +289,13 @@ Definition point_fn (g : gstate) (fn : Z) : Z := if fn =? 0 then fst (current g)
 (* ------------------------------------------------------------------------------------------------ *)
 (** * 2. The macro-language reader *)
 
-Inductive value := VNum (z : Z) | VStr (s : list Z).
+(* scalars are keyed by their name (upper case, with the type character if one was written); arrays by
+   name ++ "(" with their maximum indices and the cells that are not 0 / ""; VARPTR$ references by
+   0 :: the three bytes *)
+Inductive value :=
+| VNum (z : Z)
+| VStr (s : list Z)
+| VArr (dims : list Z) (cells : list (list Z * value)).
 Definition env := list (list Z * value).
 
 Definition memb (c : Z) (l : list Z) : bool := existsb (Z.eqb c) l.
@@ -265,15 +361,113 @@ Arguments POk {A} a rest.
 Arguments PErr {A} e.
 Arguments PUnsup {A}.
 
-(* MLParser._parse_variable (scalars only): value and rest (after the blanks _parse_indices skips) *)
+(* an array index inside a macro-language string: a literal or a scalar variable (to_int of its value) *)
+Definition parse_index (e : env) (s : list Z) : pres Z :=
+  match skip_blank s with
+  | c :: r =>
+      if is_digit c then let '(v, r') := lit 0 (c :: r) in POk v r'
+      else
+        match read_name (c :: r) with
+        | None => PErr draw_IFC
+        | Some (name, r1) =>
+            match skip_blank r1 with
+            | c1 :: r2 =>
+                if (c1 =? 91) || (c1 =? 40) then PUnsup      (* an array element as index: not modelled *)
+                else match var_value e name with
+                     | VNum v => POk v (c1 :: r2)
+                     | _ => PErr draw_TYPE_MISMATCH
+                     end
+            | [] => match var_value e name with
+                    | VNum v => POk v []
+                    | _ => PErr draw_TYPE_MISMATCH
+                    end
+            end
+        end
+  | [] => PErr draw_IFC
+  end.
+
+(* MLParser._parse_indices after the opening bracket: indices separated by commas, then ] or ) *)
+Fixpoint parse_indices (e : env) (fuel : nat) (s : list Z) {struct fuel} : pres (list Z) :=
+  match fuel with
+  | O => PUnsup
+  | S f =>
+      match parse_index e s with
+      | POk v r =>
+          match skip_blank r with
+          | c :: r' =>
+              if c =? 44 then
+                match parse_indices e f r' with
+                | POk l r'' => POk (v :: l) r''
+                | PErr x => PErr x
+                | PUnsup => PUnsup
+                end
+              else if (c =? 93) || (c =? 41) then POk [v] r'
+              else PErr draw_STX
+          | [] => PErr draw_STX
+          end
+      | PErr x => PErr x
+      | PUnsup => PUnsup
+      end
+  end.
+
+(* Arrays.check_dim + get: an array that was never dimensioned has maximum index 10 in every dimension *)
+Fixpoint check_idx (idx dims : list Z) : option Z :=
+  match idx, dims with
+  | i :: r, d :: rd =>
+      if i <? 0 then Some draw_IFC
+      else if d <? i then Some draw_SUBSCRIPT_OUT_OF_RANGE
+      else check_idx r rd
+  | _, _ => None
+  end.
+
+Definition arr_value (e : env) (name : list Z) (idx : list Z) : value + Z :=
+  let '(dims, cells) := match lookup e (name ++ [40]) with
+                        | Some (VArr d c) => (d, c)
+                        | _ => (repeat 10 (length idx), [])
+                        end in
+  if Nat.eqb (length idx) (length dims) then
+    match check_idx idx dims with
+    | Some err => inr err
+    | None => match lookup cells idx with
+              | Some v => inl v
+              | None => inl (if (List.last name 0 =? 36) then VStr [] else VNum 0)
+              end
+    end
+  else inr draw_SUBSCRIPT_OUT_OF_RANGE.
+
+(* MLParser._parse_variable: name, value and rest (after the blanks _parse_indices skips) *)
 Definition parse_variable (e : env) (s : list Z) : pres (list Z * value) :=
   match read_name s with
   | None => PErr draw_IFC                       (* error.throw_if(not name) *)
   | Some (name, r) =>
       match skip_blank r with
-      | c :: r' => if (c =? 91) || (c =? 40) then PUnsup     (* [ ( : array element *)
-                   else POk (name, var_value e name) (c :: r')
+      | c :: r' =>
+          if (c =? 91) || (c =? 40) then           (* [ ( : array element *)
+            match parse_indices e (S (length r')) r' with
+            | POk idx r'' =>
+                match arr_value e name idx with
+                | inl v => POk (name, v) r''
+                | inr err => PErr err
+                end
+            | PErr x => PErr x
+            | PUnsup => PUnsup
+            end
+          else POk (name, var_value e name) (c :: r')
       | [] => POk (name, var_value e name) []
+      end
+  end.
+
+(* Memory.get_value_for_varptrstr: the value at the pointer, or a null value of the type the first byte
+   names when the pointer is not the address of a variable; None: Illegal function call *)
+Definition ptr_value (e : env) (k : list Z) : option value :=
+  match lookup e (0 :: k) with
+  | Some v => Some v
+  | None =>
+      match k with
+      | a :: _ => if (a =? 2) || (a =? 4) || (a =? 8) then Some (VNum 0)
+                  else if a =? 3 then Some (VStr [])
+                  else None
+      | [] => None
       end
   end.
 
@@ -299,11 +493,20 @@ Definition parse_magnitude (e : env) (dflt : option Z) (s : list Z) : pres Z :=
                   | Some r4 => POk v r4
                   | None => PErr draw_IFC
                   end
-              | POk (_, VStr _) _ => PErr draw_TYPE_MISMATCH     (* values.pass_number *)
+              | POk (_, _) _ => PErr draw_TYPE_MISMATCH          (* values.pass_number *)
               | PErr x => PErr x
               | PUnsup => PUnsup
               end
-            else PUnsup                          (* VARPTR$ form *)
+            else                                 (* VARPTR$ form: three bytes, no semicolon *)
+              match r2 with
+              | a :: b :: c :: r5 =>
+                  match ptr_value e [a; b; c] with
+                  | Some (VNum v) => POk v r5
+                  | Some _ => PErr draw_TYPE_MISMATCH
+                  | None => PErr draw_IFC
+                  end
+              | _ => PErr draw_IFC
+              end
         end
       else if is_digit c2 then let '(v, r3) := lit 0 s in POk v r3
       else match dflt with Some v => POk v s | None => PErr draw_IFC end
@@ -339,14 +542,23 @@ Definition parse_string (e : env) (s : list Z) : pres (list Z * list Z) :=
             | Some r4 =>
                 match v with
                 | VStr str => POk (name, str) r4
-                | VNum _ => PErr draw_TYPE_MISMATCH                (* values.pass_string *)
+                | _ => PErr draw_TYPE_MISMATCH                     (* values.pass_string *)
                 end
             | None => PErr draw_IFC
             end
         | PErr x => PErr x
         | PUnsup => PUnsup
         end
-      else PUnsup
+      else                                       (* VARPTR$ form *)
+        match c :: r with
+        | a :: b :: c3 :: r5 =>
+            match ptr_value e [a; b; c3] with
+            | Some (VStr str) => POk (0 :: [a; b; c3], str) r5
+            | Some _ => PErr draw_TYPE_MISMATCH
+            | None => PErr draw_IFC
+            end
+        | _ => PErr draw_IFC
+        end
   end.
 
 (* "allow empty spec (default 0), but only if followed by a semicolon" (C, A, TA); the ; is not consumed *)
@@ -411,7 +623,17 @@ Definition dispatch (sub : list Z -> list cmd) (e : env) (k : list Z -> list cmd
         | [] => [Fail draw_IFC]
         end
       else [Fail draw_IFC])
-  else if c =? 80 then [Unsupported]
+  else if c =? 80 then
+    with_number (parse_number e None r) (fun f r1 =>
+      if in_range draw_range_fill f then
+        match skip_blank r1 with
+        | c2 :: r2 =>
+            if c2 =? 44 then
+              with_number (parse_number e None r2) (fun b r3 => Paint f b :: k r3)
+            else [Fail draw_IFC]
+        | [] => [Fail draw_IFC]
+        end
+      else [Fail draw_IFC])
   else
     match dir_of_byte c with
     | Some d => with_number (parse_number e (Some 1) r) (fun v r' => Move d v :: k r')
@@ -429,11 +651,12 @@ Fixpoint loop (sub : list Z -> list cmd) (e : env) (fuel : nat) (s : list Z) {st
     end
   end.
 
-(* depth = how many levels of X substrings are followed (deeper: Unsupported; the real code recurses) *)
+(* depth = how many more levels of X substrings may be entered (MAX_DRAW_DEPTH at the statement level);
+   an X beyond that raises Out of memory *)
 Fixpoint parse (depth : nat) (e : env) (s : list Z) {struct depth} : list cmd :=
-  loop (match depth with O => fun _ => [Unsupported] | S d => parse d e end) e (S (length s)) s.
+  loop (match depth with O => fun _ => [Fail draw_OUT_OF_MEMORY] | S d => parse d e end) e (S (length s)) s.
 
-Definition draw_string (depth : nat) (e : env) (g : gstate) (s : list Z) : gstate * list seg * status :=
+Definition draw_string (depth : nat) (e : env) (g : gstate) (s : list Z) : gstate * list req * status :=
   draw g (parse depth e s).
 
 (* ------------------------------------------------------------------------------------------------ *)
@@ -475,25 +698,46 @@ Definition stays (m : move) : bool := negb (m_back m).          (* moves that ar
 Definition rel_offsets (ms : list move) : list pt := map m_vec (filter stays ms).
 Definition no_abs (ms : list move) : bool := forallb (fun m => negb (m_abs m && stays m)) ms.
 
-(* the position-free pass over the commands: which moves happen (flags, scale, colour, X nesting, and
-   where the statement stops).  Angle commands are outside (the theorems assume `angle_free`). *)
-Record pst := mkP { p_scale : Z; p_attr : Z; p_nattr : Z }.
+(* the position-free pass over the commands: which moves happen (flags, scale, angle, colour, X nesting,
+   and where the statement stops).  P is outside (the theorems assume `paint_free`: what a flood fill
+   leaves behind depends on the pixels, and its overflow test on the position). *)
+Record pst := mkP { p_scale : Z; p_attr : Z; p_nattr : Z; p_angle : Z; p_aspect : Z * Z }.
 
 (* the colour C n selects: n brought into the attribute range 0 .. nattr-1 of the mode *)
 Definition clamp_attr (nattr n : Z) : Z := Z.min (nattr - 1) (Z.max 0 n).
 
+(* the scaled offset turned by the angle: nothing for 0/360, a point reflection for 180; the quarter
+   turns swap the coordinates and scale by the pixel aspect ratio yfac (a double):
+   90: (trunc(y*yfac), -floor(x/yfac)), 270: (-trunc(y*yfac), floor(x/yfac)); other angles: outside *)
+Definition turned (ang : Z) (asp : Z * Z) (v : pt) : option pt :=
+  if (ang =? 0) || (ang =? 360) then Some v
+  else if ang =? 90 then Some (mul_trunc (snd v) (yfac asp), - floor_div (fst v) (yfac asp))
+  else if ang =? 180 then Some (- fst v, - snd v)
+  else if ang =? 270 then Some (- mul_trunc (snd v) (yfac asp), floor_div (fst v) (yfac asp))
+  else None.
+
+Definition set_p_scale (ps : pst) (n : Z) : pst := mkP n (p_attr ps) (p_nattr ps) (p_angle ps) (p_aspect ps).
+Definition set_p_attr (ps : pst) (n : Z) : pst := mkP (p_scale ps) n (p_nattr ps) (p_angle ps) (p_aspect ps).
+Definition set_p_angle (ps : pst) (n : Z) : pst := mkP (p_scale ps) (p_attr ps) (p_nattr ps) n (p_aspect ps).
+
 Definition plan_move (fl : flags) (ps : pst) (ab : bool) (v : pt) : flags * pst * list move * status :=
   (fresh, ps, [mkmove ab v (fst fl) (snd fl) (p_attr ps)], Done).
+
+Definition plan_rel (fl : flags) (ps : pst) (v : pt) : flags * pst * list move * status :=
+  match turned (p_angle ps) (p_aspect ps) (scaled (p_scale ps) v) with
+  | Some o => plan_move fl ps false o
+  | None => (fl, ps, [], Excluded)
+  end.
 
 Fixpoint plan1 (c : cmd) (fl : flags) (ps : pst) {struct c} : flags * pst * list move * status :=
   match c with
   | Move d n =>
       if in_range (-99999, 99999) n
-      then plan_move fl ps false (scaled (p_scale ps) (n * fst (unit d), n * snd (unit d)))
+      then plan_rel fl ps (n * fst (unit d), n * snd (unit d))
       else (fl, ps, [], Raised 5)
   | MRel x y =>
       if in_range (-9999, 9999) x && in_range (-9999, 9999) y
-      then plan_move fl ps false (scaled (p_scale ps) (x, y))
+      then plan_rel fl ps (x, y)
       else (fl, ps, [], Raised 5)
   | MAbs x y =>
       if in_range (-9999, 9999) x && in_range (-9999, 9999) y
@@ -501,13 +745,14 @@ Fixpoint plan1 (c : cmd) (fl : flags) (ps : pst) {struct c} : flags * pst * list
       else (fl, ps, [], Raised 5)
   | PreB => ((false, snd fl), ps, [], Done)
   | PreN => ((fst fl, true), ps, [], Done)
-  | SetScale n =>
-      if in_range (1, 255) n then (fl, mkP n (p_attr ps) (p_nattr ps), [], Done) else (fl, ps, [], Raised 5)
+  | SetScale n => if in_range (1, 255) n then (fl, set_p_scale ps n, [], Done) else (fl, ps, [], Raised 5)
   | SetColour n =>
       if in_range (-99999, 99999) n
-      then (fl, mkP (p_scale ps) (clamp_attr (p_nattr ps) n) (p_nattr ps), [], Done)
+      then (fl, set_p_attr ps (clamp_attr (p_nattr ps) n), [], Done)
       else (fl, ps, [], Raised 5)
-  | SetAngle _ | TurnAngle _ | Unsupported => (fl, ps, [], Excluded)
+  | SetAngle n => if in_range (0, 3) n then (fl, set_p_angle ps (90 * n), [], Done) else (fl, ps, [], Raised 5)
+  | TurnAngle n => if in_range (-360, 360) n then (fl, set_p_angle ps n, [], Done) else (fl, ps, [], Raised 5)
+  | Paint _ _ | Unsupported => (fl, ps, [], Excluded)
   | Sub _ body =>
       let '(ps', ms, stat) :=
         (fix go (l : list cmd) (fl : flags) (ps : pst) {struct l} : pst * list move * status :=
@@ -539,16 +784,22 @@ Definition pl_pst (r : pst * list move * status) : pst := fst (fst r).
 Definition pl_moves (r : pst * list move * status) : list move := snd (fst r).
 Definition pl_status (r : pst * list move * status) : status := snd r.
 
-(* "without angle turning" *)
-Fixpoint angle_free1 (c : cmd) : bool :=
+(* the plan state of a Graphics object *)
+Definition pst_of_g (g : gstate) : pst := mkP (g_scale g) (g_attr g) (g_nattr g) (g_angle g) (g_aspect g).
+
+(* strings without P *)
+Fixpoint paint_free1 (c : cmd) : bool :=
   match c with
-  | SetAngle _ | TurnAngle _ => false
+  | Paint _ _ => false
   | Sub _ body => (fix go (l : list cmd) : bool :=
-                     match l with [] => true | c :: r => angle_free1 c && go r end) body
+                     match l with [] => true | c :: r => paint_free1 c && go r end) body
   | _ => true
   end.
-Fixpoint angle_free (l : list cmd) : bool :=
-  match l with [] => true | c :: r => angle_free1 c && angle_free r end.
+Fixpoint paint_free (l : list cmd) : bool :=
+  match l with [] => true | c :: r => paint_free1 c && paint_free r end.
+
+(* angles that the model follows: A n always (multiples of 90), TA only 0, 90, 180, 270, 360 *)
+Definition right_angle (a : Z) : bool := (a =? 0) || (a =? 90) || (a =? 180) || (a =? 270) || (a =? 360).
 
 (* ------------------------------------------------------------------------------------------------ *)
 (** * 4. Concrete syntax and printer *)
@@ -590,12 +841,12 @@ Definition num_sign (n : numc) : sign := match n with NLit _ sg _ => sg | NVar _
 Definition num_value (e : env) (n : numc) : Z :=
   match n with
   | NLit _ sg ds => sign_apply sg (dec_value ds)
-  | NVar _ sg _ nm _ => sign_apply sg (match var_value e (vname_key nm) with VNum v => v | VStr _ => 0 end)
+  | NVar _ sg _ nm _ => sign_apply sg (match var_value e (vname_key nm) with VNum v => v | _ => 0 end)
   end.
 Definition num_ok (e : env) (n : numc) : bool :=
   match n with
   | NLit _ _ ds => negb (Nat.eqb (length ds) 0) && forallb (fun d => is_digit (fst d)) ds
-  | NVar _ _ _ nm _ => vname_ok nm && match var_value e (vname_key nm) with VNum _ => true | VStr _ => false end
+  | NVar _ _ _ nm _ => vname_ok nm && match var_value e (vname_key nm) with VNum _ => true | _ => false end
   end.
 
 (* a command letter as written: blanks before it, upper or lower case *)
@@ -612,6 +863,7 @@ Inductive ccmd :=
 | CC (pre : nat) (low : bool) (n : option (numc)) (b : nat)     (* None: "C" blanks ";" (= C0) *)
 | CA (pre : nat) (low : bool) (n : option (numc)) (b : nat)
 | CTA (pre : nat) (low lowa : bool) (n : option (numc)) (b : nat)
+| CP (pre : nat) (low : bool) (f : numc) (bc : nat) (b : numc)     (* P fill , border *)
 | CX (pre : nat) (low : bool) (b1 : nat) (nm : vname) (b2 : nat) (body : list cmd).
     (* X name ; where the variable holds a string that reads as `body` *)
 
@@ -632,6 +884,7 @@ Definition ccmd_bytes (c : ccmd) : list Z :=
   | CC pre low n b => letter pre low 67 ++ opt_num_bytes n b
   | CA pre low n b => letter pre low 65 ++ opt_num_bytes n b
   | CTA pre low lowa n b => letter pre low 84 ++ [if lowa then 97 else 65] ++ opt_num_bytes n b
+  | CP pre low f bc b => letter pre low 80 ++ num_bytes f ++ blanks bc ++ [44] ++ num_bytes b
   | CX pre low b1 nm b2 _ => letter pre low 88 ++ blanks b1 ++ vname_bytes nm ++ blanks b2 ++ [59]
   end.
 
@@ -648,6 +901,7 @@ Definition ccmd_abs (e : env) (c : ccmd) : list cmd :=
   | CC _ _ n _ => [SetColour (opt_num_value e n)]
   | CA _ _ n _ => [SetAngle (opt_num_value e n)]
   | CTA _ _ _ n _ => [TurnAngle (opt_num_value e n)]
+  | CP _ _ f _ b => [Paint (num_value e f) (num_value e b)]
   | CX _ _ _ nm _ body => [Sub (vname_key nm) body]
   end.
 
@@ -667,6 +921,8 @@ Definition ccmd_ok (sub : list Z -> list cmd) (e : env) (c : ccmd) : Prop :=
                        /\ in_range draw_range_x (num_value e x) = true
   | CS _ _ n => num_ok e n = true
   | CC _ _ n _ | CA _ _ n _ | CTA _ _ _ n _ => opt_num_ok e n = true
+  | CP _ _ f _ b => num_ok e f = true /\ num_ok e b = true
+                    /\ in_range draw_range_fill (num_value e f) = true
   | CX _ _ _ nm _ body => vname_ok nm = true /\
                           exists str, var_value e (vname_key nm) = VStr str /\ sub str = body
   end.
@@ -696,6 +952,7 @@ Definition canon (c : cmd) : option ccmd :=
   | SetColour n => Some (CC O false (Some (lit_num false n)) O)
   | SetAngle n => Some (CA O false (Some (lit_num false n)) O)
   | TurnAngle n => Some (CTA O false false (Some (lit_num false n)) O)
+  | Paint f b => Some (CP O false (lit_num false f) O (lit_num false b))
   | Sub _ _ | Fail _ | Unsupported => None
   end.
 
@@ -712,15 +969,31 @@ Fixpoint canon_all (l : list cmd) : option (list ccmd) :=
 (** * 5. Encodings for the correspondence harness *)
 
 Definition enc_pt (p : pt) : list Z := [fst p; snd p].
-Definition enc_seg (s : seg) : list Z := enc_pt (s_from s) ++ enc_pt (s_to s) ++ [s_attr s].
+Definition enc_req (r : req) : list Z :=
+  match r with
+  | RLine s => 0 :: enc_pt (s_from s) ++ enc_pt (s_to s) ++ [s_attr s]
+  | RPaint p f b => 1 :: enc_pt p ++ [f; b; 0]
+  end.
 Definition enc_status (s : status) : list Z :=
   match s with Done => [0; 0] | Raised e => [1; e] | Excluded => [9; 9] end.
 
-(* one DRAW statement: status, pen, last point, scale, angle, colour, POINT(0), POINT(1), segments *)
-Definition enc_draw (r : gstate * list seg * status) : list Z :=
+(* one DRAW statement: status, pen, last point, scale, angle, colour, POINT(0), POINT(1), requests *)
+Definition enc_draw (r : gstate * list req * status) : list Z :=
   let '(g, sg, stat) := r in
   enc_status stat ++ enc_pt (current g) ++ enc_pt (g_last g) ++ [g_scale g; g_angle g; g_attr g]
-  ++ [point_fn g 0; point_fn g 1] ++ [zlen sg] ++ flat_map enc_seg sg.
+  ++ [point_fn g 0; point_fn g 1] ++ [zlen sg] ++ flat_map enc_req sg.
+
+(* the double operations on their own (checked against the host's doubles): yfac normalised to an odd
+   mantissa, int(v*yfac), int(v//yfac) *)
+Fixpoint strip_even (fuel : nat) (m e : Z) : Z * Z :=
+  match fuel with
+  | O => (m, e)
+  | S f => if (m =? 0) || Z.odd m then (m, e) else strip_even f (m / 2) (e + 1)
+  end.
+Definition enc_float (a0 a1 v : Z) : list Z :=
+  let d := fdiv a1 a0 in
+  let '(m, e) := strip_even 2000 (fst d) (snd d) in
+  [m; e; mul_trunc v d; floor_div v d].
 
 (* several DRAW statements one after the other on the same Graphics object; the boolean tells that a
    statement left the model's domain (the harness stops the implementation at the same place) *)
